@@ -4,6 +4,8 @@ package props
 
 import (
 	"fmt"
+	"runtime/debug"
+	"sync"
 	"testing"
 
 	"github.com/fluhus/biostuff/formats/newick"
@@ -204,14 +206,18 @@ func checkC19(c C19Case, o *Obs) error {
 		{"PreOrder", func() func(func(*newick.Node) bool) { return root.PreOrder() }, refPreOrder(root, make([]*newick.Node, 0, len(nodes)))},
 		{"PostOrder", func() func(func(*newick.Node) bool) { return root.PostOrder() }, refPostOrder(root, make([]*newick.Node, 0, len(nodes)))},
 	} {
-		var got []*newick.Node
+		got := make([]*newick.Node, 0, len(nodes)+2)
+		// "Works for trees deeper than any recursion limit": while the traversal runs, the
+		// goroutine stack limit is lowered to 256 KiB - ample for an iterative traversal of any
+		// depth, fatal ("stack overflow") for one that recurses once per level of a deep tree.
 		if p := catch(func() {
-			for n := range tc.it() {
+			it := tc.it()
+			old := debug.SetMaxStack(256 << 10)
+			defer debug.SetMaxStack(old)
+			it(func(n *newick.Node) bool {
 				got = append(got, n)
-				if len(got) > len(nodes)+1 {
-					break
-				}
-			}
+				return len(got) <= len(nodes)+1
+			})
 		}); p != nil {
 			return fmt.Errorf("%s panicked: %v", tc.name, p)
 		}
@@ -365,6 +371,10 @@ func exhaustiveC19(thorough bool, emit func(C19Case) bool) {
 			return
 		}
 	}
+	// a node with more children than a 16-bit counter holds
+	if !emit(C19Case{Tree: gen.TreeSpec{Shape: "broom", N: 2, Fan: 70000}}) || !emit(C19Case{Tree: gen.TreeSpec{Shape: "broom", N: 1, Fan: 65536}}) {
+		return
+	}
 	for _, sh := range []string{"chain", "broom", "caterpillar"} {
 		deep := 100000
 		if thorough {
@@ -379,5 +389,58 @@ func exhaustiveC19(thorough bool, emit func(C19Case) bool) {
 }
 
 func TestC19(t *testing.T) {
-	Run(t, Prop[C19Case]{ID: "C19", Gen: genC19, Exhaustive: exhaustiveC19, Check: checkC19})
+	Run(t, Prop[C19Case]{ID: "C19", Gen: genC19, Exhaustive: exhaustiveC19, Check: checkC19,
+		Risky: func(c C19Case) bool { return c.Tree.N >= 2000 || len(c.Tree.Parents) >= 2000 }})
+}
+
+// checkC19Race runs in a binary built with -race: several goroutines traverse the same tree at
+// the same time. Traversal "does not modify the tree", so concurrent traversals are pure readers;
+// any write to the tree during a traversal is reported by the race detector (the driver maps the
+// report to a violation), and every goroutine must still see the reference order.
+func checkC19Race(c C19Case, o *Obs) error {
+	root, nodes := buildTree(c.Tree)
+	if len(nodes) > 3000 {
+		return nil
+	}
+	_, fan := treeDepthAndFan(c.Tree.ParentArray())
+	o.NT = len(nodes) >= 3
+	o.Class("concurrent traversals")
+	o.ClassIf(fan >= 3, "fan-out>=3")
+	wantPre, wantPost := refPreOrder(root, nil), refPostOrder(root, nil)
+	var wg sync.WaitGroup
+	errs := make(chan error, 8)
+	for g := 0; g < 6; g++ {
+		wg.Add(1)
+		go func(g int) {
+			defer wg.Done()
+			for rep := 0; rep < 3; rep++ {
+				want, it, name := wantPost, root.PostOrder(), "PostOrder"
+				if (g+rep)%2 == 0 {
+					want, it, name = wantPre, root.PreOrder(), "PreOrder"
+				}
+				i := 0
+				for n := range it {
+					if i >= len(want) || n != want[i] {
+						errs <- fmt.Errorf("%s running concurrently with other traversals of the same tree: item %d differs from the sequential order (parents %s)", name, i, abbreviateInts(c.Tree.ParentArray()))
+						return
+					}
+					i++
+				}
+				if i != len(want) {
+					errs <- fmt.Errorf("%s running concurrently with other traversals yields %d nodes, want %d", name, i, len(want))
+					return
+				}
+			}
+		}(g)
+	}
+	wg.Wait()
+	close(errs)
+	return <-errs
+}
+
+func TestC19Race(t *testing.T) {
+	Run(t, Prop[C19Case]{ID: "C19", Gen: func(t *rapid.T, thorough bool) C19Case {
+		n := rapid.OneOf(rapid.IntRange(2, 30), rapid.IntRange(2, 400)).Draw(t, "nodes")
+		return C19Case{Tree: gen.TreeSpec{Parents: gen.DrawShape(t, n), SharedChildren: rapid.Bool().Draw(t, "shared")}}
+	}, Check: checkC19Race})
 }
